@@ -220,7 +220,7 @@ class MinPathCoverCycles(walkmodel.AbstractWalkModelDiGraph):
     def get_lowerbound_k(self):
 
         if self._lowerbound_k is None:
-            stG = stdigraph.stDiGraph(self.G)
+            stG = stdigraph.stDiGraph(self.G, additional_starts=self.additional_starts, additional_ends=self.additional_ends)
             # The synthetic source/sink edges need not be covered by the walks
             # (at least one walk: the k-cover models need k >= 1 even when every edge is ignored)
             self._lowerbound_k = max(1, stG.get_width(edges_to_ignore=list(self.edges_to_ignore) + list(stG.source_sink_edges)))
